@@ -178,9 +178,475 @@ theorem aoe_two (k v : Bytes) (e : E7) (n : Nat) (b : PSt) (x : Item) (rest : Li
   have h2 : comma.typ = Tok.comma := rfl
   have h3 : letTok.typ = Tok.assign := rfl
   have h4 : letTok.val = str ":=" := rfl
-  have h5 : letTok.typ ≠ Tok.comma := by simp [letTok, it]
   simp only [toks7_atom7, List.singleton_append] at hv
   unfold assignmentOrExpression
-  simp [bind_apply, hp, hk, hv, tree7_atom7, h2, h3, h5, get, assignLeftLoop, assignable, PExpr.nt, h4, assignRightLoop, he, h1]
+  simp [bind_apply, hp, hk, hv, tree7_atom7, h2, h3, get, assignLeftLoop, assignable, PExpr.nt, h4, assignRightLoop, he, h1]
+
+/-! ### `textOrAction` and `action` on the first items of a statement -/
+
+theorem toa_text (n : Nat) (s0 b : PSt) (v : Bytes) (rest : List Item) (hs : Starts s0 b (it Tok.text v :: rest)) :
+    textOrAction cfg (n + 1) s0 = .ok (.text 1 v) (mkS b rest (it Tok.text v) 0) := by
+  obtain ⟨t, ts, hl, hnx⟩ := hs
+  simp at hl
+  obtain ⟨rfl, rfl⟩ := hl
+  rw [textOrAction]
+  simp [bind_apply, hnx, it]
+
+theorem toa_action (n : Nat) (s0 b : PSt) (tl : List Item) (hs : Starts s0 b (ld :: tl)) :
+    textOrAction cfg (n + 1) s0 = action cfg n (mkS b tl ld 0) := by
+  obtain ⟨t, ts, hl, hnx⟩ := hs
+  simp at hl
+  obtain ⟨rfl, rfl⟩ := hl
+  rw [textOrAction]
+  simp [bind_apply, hnx, ld, it]
+
+theorem action_if (n : Nat) (b : PSt) (x : Item) (tl : List Item) :
+    action cfg (n + 1) (mkS b (kIf :: tl) x 0) = parseControl cfg n true "if" (mkS b tl kIf 0) := by
+  have h0 : kIf.pos = 0 := rfl
+  have h1 : kIf.typ = Tok.if_ := rfl
+  rw [action]
+  simp [bind_apply, h0, h1]
+
+theorem action_range (n : Nat) (b : PSt) (x : Item) (tl : List Item) :
+    action cfg (n + 1) (mkS b (kRange :: tl) x 0) = parseControl cfg n false "range" (mkS b tl kRange 0) := by
+  have h0 : kRange.pos = 0 := rfl
+  have h1 : kRange.typ = Tok.range := rfl
+  rw [action]
+  simp [bind_apply, h0, h1]
+
+theorem expectRightDelim_rd (ctx : String) (b : PSt) (x : Item) (rest : List Item) :
+    expectRightDelim ctx (mkS b (rd :: rest) x 0) = .ok rd (mkS b rest rd 0) := by
+  have h0 : rd.pos = 0 := rfl
+  have h1 : rd.typ = Tok.rightDelim := rfl
+  simp [expectRightDelim, expect, bind_apply, h0, h1]
+
+theorem expectRightDelim_pushed (ctx : String) (b : PSt) (rest : List Item) :
+    expectRightDelim ctx (mkS b rest rd 1) = .ok rd (mkS b rest rd 0) := by
+  have h1 : rd.typ = Tok.rightDelim := rfl
+  simp [expectRightDelim, expect, bind_apply, h1]
+
+theorem action_end (n : Nat) (b : PSt) (x : Item) (rest : List Item) :
+    action cfg (n + 1) (mkS b (kEnd :: rd :: rest) x 0) = .ok .endM (mkS b rest rd 0) := by
+  have h0 : kEnd.pos = 0 := rfl
+  have h1 : kEnd.typ = Tok.end_ := rfl
+  rw [action]
+  simp [bind_apply, h0, h1, expectRightDelim_rd]
+
+theorem action_else (n : Nat) (b : PSt) (x : Item) (rest : List Item) :
+    action cfg (n + 1) (mkS b (kElse :: rd :: rest) x 0) = .ok (.elseM 1) (mkS b rest rd 0) := by
+  have h0 : kElse.pos = 0 := rfl
+  have h1 : kElse.typ = Tok.else_ := rfl
+  have h2 : rd.pos = 0 := rfl
+  have h3 : rd.typ = Tok.rightDelim := rfl
+  rw [action]
+  simp [bind_apply, h0, h1, h2, h3, expectRightDelim_pushed]
+
+theorem action_elseif (n : Nat) (b : PSt) (x : Item) (rest : List Item) :
+    action cfg (n + 1) (mkS b (kElse :: sp :: kIf :: rest) x 0) = .ok (.elseM 1) (mkS b rest kIf 1) := by
+  have h0 : kElse.pos = 0 := rfl
+  have h1 : kElse.typ = Tok.else_ := rfl
+  have h3 : kIf.typ = Tok.if_ := rfl
+  have hp := peekNonSpace_sp b kIf rest kElse rfl (by simp [h3])
+  rw [action]
+  simp [bind_apply, h0, h1, hp, h3]
+
+/-- `{{ e }}` from behind the opening delimiter -/
+theorem action_print (e : E7) (n : Nat) (b : PSt) (x : Item) (rest : List Item) (hn : n ≥ 10 * sz7 e) :
+    action cfg (n + 1) (mkS b (toks7 e ++ rd :: rest) x 0) = .ok (printTree (tree7 e)) (mkS b rest rd 0) := by
+  obtain ⟨t, ts, hl, h0, ht⟩ := (ehead7 e).append (rd :: rest)
+  have hsp : t.typ ≠ Tok.space := by
+    rcases ht with h | h | h | h | h <;> simp [h]
+  have ha := aoe_expr cfg e n "command" (mkS b ts t 1) b t ts rest hn (peekNonSpace_pushed b ts t hsp) hl
+  have hp := pipeline_plain cfg n b rest (tree7 e) (nocall7 e)
+  rw [hl, action]
+  rcases ht with h | h | h | h | h <;> simp [bind_apply, h0, h, ha, hp, printTree]
+
+/-! ### one turn of the item-list loop -/
+
+/-- the next non-space item of `s` is the head of `l`; looking at it leaves it pushed back -/
+def Peeks (s b : PSt) (l : List Item) : Prop :=
+  ∃ t ts, l = t :: ts ∧ t.typ ≠ Tok.space ∧ peekNonSpace s = .ok t (mkS b ts t 1)
+
+theorem peeks_fresh (b : PSt) (x : Item) {l : List Item} (h : GoodHead l) : Peeks (mkS b l x 0) b l := by
+  obtain ⟨t, ts, rfl, h0, hs⟩ := h
+  exact ⟨t, ts, rfl, hs, peekNonSpace_cons b t ts x h0 hs⟩
+
+theorem peeks_pushed (b : PSt) (t : Item) (ts : List Item) (hs : t.typ ≠ Tok.space) :
+    Peeks (mkS b ts t 1) b (t :: ts) := ⟨t, ts, rfl, hs, peekNonSpace_pushed b ts t hs⟩
+
+theorem loop_step_stmt (k : Nat) (terms : List Marker) (acc : List PStmt) (s0 b s1 : PSt) (t : Item) (ts : List Item)
+    (nd : PStmt) (hp : Peeks s0 b (t :: ts)) (he : t.typ ≠ Tok.eof)
+    (hx : textOrAction cfg k (mkS b ts t 1) = .ok nd s1) (hm : nd.marker = .none) :
+    itemListLoop cfg (k + 1) terms acc s0 = itemListLoop cfg k terms (acc ++ [nd]) s1 := by
+  obtain ⟨t', ts', hl, _, hpk⟩ := hp
+  simp at hl
+  obtain ⟨rfl, rfl⟩ := hl
+  rw [itemListLoop]
+  simp [bind_apply, hpk, he, hx, hm]
+
+theorem loop_step_close (k : Nat) (terms : List Marker) (acc : List PStmt) (s0 b s1 : PSt) (t : Item) (ts : List Item)
+    (nd : PStmt) (hp : Peeks s0 b (t :: ts)) (he : t.typ ≠ Tok.eof)
+    (hx : textOrAction cfg k (mkS b ts t 1) = .ok nd s1) (hm : nd.marker ≠ .none)
+    (ht : inTerminators nd.marker terms = true) :
+    itemListLoop cfg (k + 1) terms acc s0 = .ok (acc, nd) s1 := by
+  obtain ⟨t', ts', hl, _, hpk⟩ := hp
+  simp at hl
+  obtain ⟨rfl, rfl⟩ := hl
+  rw [itemListLoop]
+  simp [bind_apply, hpk, he, hx, hm, ht]
+
+theorem ld_typ : ld.typ = Tok.leftDelim := rfl
+
+/-- the loop at `{{end}}` -/
+theorem loop_end (k : Nat) (terms : List Marker) (acc : List PStmt) (s0 b : PSt) (rest : List Item)
+    (hp : Peeks s0 b (ld :: kEnd :: rd :: rest)) (ht : inTerminators .end_ terms = true) :
+    itemListLoop cfg (k + 3) terms acc s0 = .ok (acc, .endM) (mkS b rest rd 0) := by
+  refine loop_step_close cfg (k + 2) terms acc s0 b _ ld _ .endM hp (by simp [ld_typ]) ?_ (by simp [PStmt.marker]) ht
+  rw [toa_action cfg (k + 1) _ b _ (starts_pushed b ld _ (by simp [ld_typ])), action_end]
+
+/-- the loop at `{{else}}` -/
+theorem loop_else (k : Nat) (terms : List Marker) (acc : List PStmt) (s0 b : PSt) (rest : List Item)
+    (hp : Peeks s0 b (ld :: kElse :: rd :: rest)) (ht : inTerminators .else_ terms = true) :
+    itemListLoop cfg (k + 3) terms acc s0 = .ok (acc, .elseM 1) (mkS b rest rd 0) := by
+  refine loop_step_close cfg (k + 2) terms acc s0 b _ ld _ (.elseM 1) hp (by simp [ld_typ]) ?_ (by simp [PStmt.marker]) ht
+  rw [toa_action cfg (k + 1) _ b _ (starts_pushed b ld _ (by simp [ld_typ])), action_else]
+
+/-- the loop at `{{else if`: the `if` stays pushed back -/
+theorem loop_elseif (k : Nat) (terms : List Marker) (acc : List PStmt) (s0 b : PSt) (rest : List Item)
+    (hp : Peeks s0 b (ld :: kElse :: sp :: kIf :: rest)) (ht : inTerminators .else_ terms = true) :
+    itemListLoop cfg (k + 3) terms acc s0 = .ok (acc, .elseM 1) (mkS b rest kIf 1) := by
+  refine loop_step_close cfg (k + 2) terms acc s0 b _ ld _ (.elseM 1) hp (by simp [ld_typ]) ?_ (by simp [PStmt.marker]) ht
+  rw [toa_action cfg (k + 1) _ b _ (starts_pushed b ld _ (by simp [ld_typ])), action_elseif]
+
+theorem itemList_of_loop (m : Nat) (terms : List Marker) (s0 b sf : PSt) (t : Item) (ts : List Item)
+    (nodes : List PStmt) (nd : PStmt) (hp : Peeks s0 b (t :: ts))
+    (hx : itemListLoop cfg m terms [] (mkS b ts t 1) = .ok (nodes, nd) sf) :
+    itemList cfg (m + 1) terms s0 = .ok (1, nodes, nd) sf := by
+  obtain ⟨t', ts', hl, _, hpk⟩ := hp
+  simp at hl
+  obtain ⟨rfl, rfl⟩ := hl
+  rw [itemList]
+  simp [bind_apply, hpk, hx]
+
+/-! ### lists of statements -/
+
+/-- a statement starts with a text item or with `{{` -/
+def StmtHead (l : List Item) : Prop :=
+  ∃ t ts, l = t :: ts ∧ t.pos = 0 ∧ (t.typ = Tok.text ∨ t.typ = Tok.leftDelim)
+
+theorem StmtHead.append {l : List Item} (h : StmtHead l) (m : List Item) : StmtHead (l ++ m) := by
+  obtain ⟨t, ts, rfl, h0, hs⟩ := h
+  exact ⟨t, ts ++ m, rfl, h0, hs⟩
+
+theorem StmtHead.good {l : List Item} (h : StmtHead l) : GoodHead l := by
+  obtain ⟨t, ts, rfl, h0, hs⟩ := h
+  exact ⟨t, ts, rfl, h0, by rcases hs with h | h <;> simp [h]⟩
+
+theorem headS (s : S) : StmtHead (toksS s) := by
+  cases s with
+  | text v => exact ⟨_, _, rfl, rfl, Or.inl rfl⟩
+  | print e => exact ⟨_, _, rfl, rfl, Or.inr rfl⟩
+  | ifS c thn els => exact ⟨_, _, rfl, rfl, Or.inr rfl⟩
+  | rangeS v e body els => exact ⟨_, _, rfl, rfl, Or.inr rfl⟩
+
+/-- a list of statements in front of a `{{` starts like a statement -/
+theorem headL (l : L) (tl : List Item) : StmtHead (toksL l ++ ld :: tl) := by
+  cases l with
+  | nil => exact ⟨_, _, rfl, rfl, Or.inr rfl⟩
+  | cons s l => simp only [toksL, List.append_assoc]; exact (headS s).append _
+
+def lenL : L → Nat
+  | .nil => 0
+  | .cons _ l => lenL l + 1
+
+theorem lenL_le : (l : L) → lenL l + 1 ≤ sizeL l
+  | .nil => by simp [lenL, sizeL]
+  | .cons s l => by have := lenL_le l; simp [lenL, sizeL]; omega
+
+theorem marker_treeS (s : S) : (treeS s).marker = .none := by
+  cases s <;> simp [treeS, printTree, PStmt.marker]
+
+/-- what is proved of a statement: `textOrAction` reads exactly its spelling -/
+@[reducible] def StmtOK (s : S) : Prop := ∀ (n : Nat) (s0 b : PSt) (rest : List Item),
+    n ≥ 10 * sizeS s → Starts s0 b (toksS s ++ rest) →
+    textOrAction cfg n s0 = .ok (treeS s) (mkS b rest (lastS s) 0)
+
+/-- what is proved of a list: the loop adds its trees and goes on at the `{{` behind it -/
+@[reducible] def ListOK (l : L) : Prop := ∀ (k : Nat) (terms : List Marker) (acc : List PStmt) (s0 b : PSt) (tl : List Item),
+    k + lenL l ≥ 10 * sizeL l → Peeks s0 b (toksL l ++ ld :: tl) →
+    ∃ s1, Peeks s1 b (ld :: tl) ∧
+      itemListLoop cfg (k + lenL l) terms acc s0 = itemListLoop cfg k terms (acc ++ treeL l) s1
+
+theorem list_nil : ListOK cfg .nil := by
+  intro k terms acc s0 b tl _ hp
+  exact ⟨s0, by simpa [toksL] using hp, by simp [lenL, treeL]⟩
+
+theorem list_cons (s : S) (l : L) (hs : StmtOK cfg s) (hl : ListOK cfg l) : ListOK cfg (.cons s l) := by
+  intro k terms acc s0 b tl hn hp
+  obtain ⟨t, ts, hts, h0, hty⟩ := headS s
+  have hsp : t.typ ≠ Tok.space := by rcases hty with h | h <;> simp [h]
+  have heof : t.typ ≠ Tok.eof := by rcases hty with h | h <;> simp [h]
+  have hlen := lenL_le l
+  simp only [toksL, List.append_assoc] at hp
+  have hx := hs (k + lenL l) (mkS b (ts ++ (toksL l ++ ld :: tl)) t 1) b (toksL l ++ ld :: tl)
+    (by simp [lenL, sizeL] at hn; omega) (by rw [hts]; exact starts_pushed b t _ hsp)
+  rw [hts] at hp
+  have h1 := loop_step_stmt cfg (k + lenL l) terms acc s0 b _ t _ _ hp heof hx (marker_treeS s)
+  obtain ⟨s1, hp1, h2⟩ := hl k terms (acc ++ [treeS s]) (mkS b (toksL l ++ ld :: tl) (lastS s) 0) b tl
+    (by simp [lenL, sizeL] at hn; omega) (peeks_fresh b _ (headL l tl).good)
+  refine ⟨s1, hp1, ?_⟩
+  have e1 : k + lenL (L.cons s l) = k + lenL l + 1 := by simp [lenL]; omega
+  rw [e1, h1, h2]
+  simp [treeL]
+
+/-- a list and the `{{end}}` behind it -/
+theorem itemList_end (l : L) (hl : ListOK cfg l) (m : Nat) (terms : List Marker) (s0 b : PSt) (rest : List Item)
+    (hm : m ≥ 10 * sizeL l + 3) (hp : Peeks s0 b (toksL l ++ ld :: kEnd :: rd :: rest))
+    (ht : inTerminators .end_ terms = true) :
+    itemList cfg (m + 1) terms s0 = .ok (1, treeL l, .endM) (mkS b rest rd 0) := by
+  have hlen := lenL_le l
+  obtain ⟨t, ts, hts, hsp, hpk⟩ := hp
+  refine itemList_of_loop cfg m terms s0 b _ t ts _ _ ⟨t, ts, rfl, hsp, hpk⟩ ?_
+  obtain ⟨k, rfl⟩ : ∃ k, m = (k + 3) + lenL l := ⟨m - lenL l - 3, by omega⟩
+  obtain ⟨s1, hp1, h2⟩ := hl (k + 3) terms [] (mkS b ts t 1) b (kEnd :: rd :: rest) (by omega)
+    (by rw [hts]; exact peeks_pushed b t ts hsp)
+  rw [h2, loop_end cfg k terms _ s1 b rest hp1 ht]
+  simp
+
+/-- a list and the `{{else}}` behind it -/
+theorem itemList_else (l : L) (hl : ListOK cfg l) (m : Nat) (terms : List Marker) (s0 b : PSt) (rest : List Item)
+    (hm : m ≥ 10 * sizeL l + 3) (hp : Peeks s0 b (toksL l ++ ld :: kElse :: rd :: rest))
+    (ht : inTerminators .else_ terms = true) :
+    itemList cfg (m + 1) terms s0 = .ok (1, treeL l, .elseM 1) (mkS b rest rd 0) := by
+  have hlen := lenL_le l
+  obtain ⟨t, ts, hts, hsp, hpk⟩ := hp
+  refine itemList_of_loop cfg m terms s0 b _ t ts _ _ ⟨t, ts, rfl, hsp, hpk⟩ ?_
+  obtain ⟨k, rfl⟩ : ∃ k, m = (k + 3) + lenL l := ⟨m - lenL l - 3, by omega⟩
+  obtain ⟨s1, hp1, h2⟩ := hl (k + 3) terms [] (mkS b ts t 1) b (kElse :: rd :: rest) (by omega)
+    (by rw [hts]; exact peeks_pushed b t ts hsp)
+  rw [h2, loop_else cfg k terms _ s1 b rest hp1 ht]
+  simp
+
+/-- a list and the `{{else if` behind it -/
+theorem itemList_elseif (l : L) (hl : ListOK cfg l) (m : Nat) (terms : List Marker) (s0 b : PSt) (rest : List Item)
+    (hm : m ≥ 10 * sizeL l + 3) (hp : Peeks s0 b (toksL l ++ ld :: kElse :: sp :: kIf :: rest))
+    (ht : inTerminators .else_ terms = true) :
+    itemList cfg (m + 1) terms s0 = .ok (1, treeL l, .elseM 1) (mkS b rest kIf 1) := by
+  have hlen := lenL_le l
+  obtain ⟨t, ts, hts, hsp, hpk⟩ := hp
+  refine itemList_of_loop cfg m terms s0 b _ t ts _ _ ⟨t, ts, rfl, hsp, hpk⟩ ?_
+  obtain ⟨k, rfl⟩ : ∃ k, m = (k + 3) + lenL l := ⟨m - lenL l - 3, by omega⟩
+  obtain ⟨s1, hp1, h2⟩ := hl (k + 3) terms [] (mkS b ts t 1) b (kElse :: sp :: kIf :: rest) (by omega)
+    (by rw [hts]; exact peeks_pushed b t ts hsp)
+  rw [h2, loop_elseif cfg k terms _ s1 b rest hp1 ht]
+  simp
+
+/-! ### `parseControl`: the header, then the bodies -/
+
+/-- `parseControl` from behind the header's closing delimiter -/
+def ctrlTail (n : Nat) (allowElseIf : Bool) (set : Option PSet) (e : Option PExpr) : PM PStmt := do
+  let (ll, list, nx) ← itemList cfg n [.else_, .end_]
+  let els ← (if nx.marker = .else_ then do
+      let pk ← peek
+      if allowElseIf ∧ pk.typ = Tok.if_ then do
+        let _ ← next
+        let el ← lineNumber
+        let inner ← parseControl cfg n true "if"
+        pure (some (el, [inner]))
+      else do
+        let (el, elist, _) ← itemList cfg n [.end_]
+        pure (some (el, elist))
+    else pure none)
+  pure (.branch allowElseIf 1 set e ll list els)
+
+/-- a header that is a plain expression -/
+theorem parseControl_inl (n : Nat) (allow : Bool) (ctx : String) (b : PSt) (x : Item) (tl rest : List Item) (e : PExpr)
+    (h : assignmentOrExpression cfg n ctx (mkS b tl x 0) = .ok (.inl e) (mkS b rest rd 1)) :
+    parseControl cfg (n + 1) allow ctx (mkS b tl x 0) = ctrlTail cfg n allow none (some e) (mkS b rest rd 0) := by
+  rw [parseControl]
+  simp [bind_apply, h, expectRightDelim_pushed, ctrlTail]
+
+/-- a `range` header that declares variables -/
+theorem parseControl_inr (n : Nat) (allow : Bool) (b : PSt) (x : Item) (tl rest : List Item) (st : PSet)
+    (h : assignmentOrExpression cfg n "range" (mkS b tl x 0) = .ok (.inr st) (mkS b rest rd 1)) :
+    parseControl cfg (n + 1) allow "range" (mkS b tl x 0) = ctrlTail cfg n allow (some st) none (mkS b rest rd 0) := by
+  rw [parseControl]
+  simp [bind_apply, h, expectRightDelim_pushed, ctrlTail]
+
+theorem hdr_if (c : E7) (n : Nat) (b : PSt) (x : Item) (rest : List Item) (hn : n ≥ 10 * sz7 c) :
+    parseControl cfg (n + 1) true "if" (mkS b (sp :: (toks7 c ++ rd :: rest)) x 0) =
+      ctrlTail cfg n true none (some (tree7 c)) (mkS b rest rd 0) := by
+  obtain ⟨t, ts, hl, h0, hsp⟩ := (good7 c).append (rd :: rest)
+  refine parseControl_inl cfg n true "if" b x _ rest _ ?_
+  rw [hl]
+  exact aoe_expr cfg c n "if" _ b t ts rest hn (peekNonSpace_sp b t ts x h0 hsp) hl
+
+theorem hdr_range (v : RangeVars) (e : E7) (n : Nat) (b : PSt) (x : Item) (rest : List Item) (hn : n ≥ 10 * sz7 e + 90) :
+    parseControl cfg (n + 1) false "range" (mkS b (sp :: (toksV v ++ (toks7 e ++ rd :: rest))) x 0) =
+      ctrlTail cfg n false (setV v (tree7 e)) (exprV v (tree7 e)) (mkS b rest rd 0) := by
+  cases v with
+  | none =>
+    obtain ⟨t, ts, hl, h0, hsp⟩ := (good7 e).append (rd :: rest)
+    refine parseControl_inl cfg n false "range" b x _ rest _ ?_
+    simp only [toksV, List.nil_append]
+    rw [hl]
+    exact aoe_expr cfg e n "range" _ b t ts rest (by omega) (peekNonSpace_sp b t ts x h0 hsp) hl
+  | one v => exact parseControl_inr cfg n false b x _ rest _ (aoe_one cfg v e n b x rest hn)
+  | two k v => exact parseControl_inr cfg n false b x _ rest _ (aoe_two cfg k v e n b x rest hn)
+
+/-- the body and `{{end}}` -/
+theorem tail_none (l : L) (hl : ListOK cfg l) (n : Nat) (allow : Bool) (set : Option PSet) (e : Option PExpr)
+    (b : PSt) (x : Item) (rest : List Item) (hn : n ≥ 10 * sizeL l + 4) :
+    ctrlTail cfg n allow set e (mkS b (toksL l ++ ld :: kEnd :: rd :: rest) x 0) =
+      .ok (.branch allow 1 set e 1 (treeL l) none) (mkS b rest rd 0) := by
+  obtain ⟨m, rfl⟩ : ∃ m, n = m + 1 := ⟨n - 1, by omega⟩
+  have h := itemList_end cfg l hl m [.else_, .end_] _ b rest (by omega) (peeks_fresh b x (headL l _).good) (by decide)
+  simp [ctrlTail, bind_apply, h, PStmt.marker]
+
+/-- the body, `{{else}}`, the else list and `{{end}}` -/
+theorem tail_els (l l2 : L) (hl : ListOK cfg l) (hl2 : ListOK cfg l2) (n : Nat) (allow : Bool) (set : Option PSet)
+    (e : Option PExpr) (b : PSt) (x : Item) (rest : List Item) (hn : n ≥ 10 * sizeL l + 4) (hn2 : n ≥ 10 * sizeL l2 + 4) :
+    ctrlTail cfg n allow set e (mkS b (toksL l ++ ld :: kElse :: rd :: (toksL l2 ++ ld :: kEnd :: rd :: rest)) x 0) =
+      .ok (.branch allow 1 set e 1 (treeL l) (some (1, treeL l2))) (mkS b rest rd 0) := by
+  obtain ⟨m, rfl⟩ : ∃ m, n = m + 1 := ⟨n - 1, by omega⟩
+  have h := itemList_else cfg l hl m [.else_, .end_] _ b (toksL l2 ++ ld :: kEnd :: rd :: rest) (by omega)
+    (peeks_fresh b x (headL l _).good) (by decide)
+  obtain ⟨t, ts, hts, h0, hty⟩ := headL l2 (kEnd :: rd :: rest)
+  have hsp : t.typ ≠ Tok.space := by rcases hty with h | h <;> simp [h]
+  have hif : t.typ ≠ Tok.if_ := by rcases hty with h | h <;> simp [h]
+  have h2 := itemList_end cfg l2 hl2 m [.end_] (mkS b ts t 1) b rest (by omega)
+    (by rw [hts]; exact peeks_pushed b t ts hsp) (by decide)
+  rw [hts] at h ⊢
+  simp [ctrlTail, bind_apply, h, PStmt.marker, h0, hif, h2]
+
+/-- the body, `{{else if`, and the rest of the chain -/
+theorem tail_elseif (l : L) (hl : ListOK cfg l) (n : Nat) (set : Option PSet) (e : Option PExpr)
+    (b s2 : PSt) (x : Item) (tl : List Item) (inner : PStmt) (hn : n ≥ 10 * sizeL l + 4)
+    (hi : parseControl cfg n true "if" (mkS b tl kIf 0) = .ok inner s2) :
+    ctrlTail cfg n true set e (mkS b (toksL l ++ ld :: kElse :: sp :: kIf :: tl) x 0) =
+      .ok (.branch true 1 set e 1 (treeL l) (some (1, [inner]))) s2 := by
+  obtain ⟨m, rfl⟩ : ∃ m, n = m + 1 := ⟨n - 1, by omega⟩
+  have h := itemList_elseif cfg l hl m [.else_, .end_] _ b tl (by omega) (peeks_fresh b x (headL l _).good) (by decide)
+  have h3 : kIf.typ = Tok.if_ := rfl
+  simp [ctrlTail, bind_apply, h, PStmt.marker, h3, hi]
+
+/-! ### the statements, case by case (the recursive occurrences as hypotheses) -/
+
+/-- what is proved of an `if` with condition `c`, body `thn` and continuation `els`, from behind the keyword -/
+@[reducible] def CtrlIf (c : E7) (thn : L) (els : Else) : Prop := ∀ (n : Nat) (b : PSt) (x : Item) (rest : List Item),
+    n ≥ 10 * (sz7 c + sizeL thn + sizeElse els) + 5 →
+    parseControl cfg n true "if" (mkS b (sp :: (toks7 c ++ rd :: (toksL thn ++ (toksElse els ++ rest)))) x 0) =
+      .ok (.branch true 1 none (some (tree7 c)) 1 (treeL thn) (treeElse els)) (mkS b rest rd 0)
+
+theorem ctrl_if_none (c : E7) (thn : L) (hl : ListOK cfg thn) : CtrlIf cfg c thn .none := by
+  intro n b x rest hn
+  obtain ⟨m, rfl⟩ : ∃ m, n = m + 1 := ⟨n - 1, by omega⟩
+  simp only [sizeElse] at hn
+  rw [hdr_if cfg c m b x _ (by omega)]
+  simp only [toksElse, endToks, treeElse, List.cons_append, List.nil_append]
+  exact tail_none cfg thn hl m true none _ b rd rest (by omega)
+
+theorem ctrl_if_els (c : E7) (thn l : L) (hl : ListOK cfg thn) (hl2 : ListOK cfg l) : CtrlIf cfg c thn (.els l) := by
+  intro n b x rest hn
+  obtain ⟨m, rfl⟩ : ∃ m, n = m + 1 := ⟨n - 1, by omega⟩
+  simp only [sizeElse] at hn
+  rw [hdr_if cfg c m b x _ (by omega)]
+  simp only [toksElse, endToks, treeElse, List.cons_append, List.nil_append, List.append_assoc]
+  exact tail_els cfg thn l hl hl2 m true none _ b rd rest (by omega) (by omega)
+
+theorem ctrl_if_elseIf (c : E7) (thn : L) (c' : E7) (thn' : L) (els' : Else) (hl : ListOK cfg thn)
+    (hi : CtrlIf cfg c' thn' els') : CtrlIf cfg c thn (.elseIf c' thn' els') := by
+  intro n b x rest hn
+  obtain ⟨m, rfl⟩ : ∃ m, n = m + 1 := ⟨n - 1, by omega⟩
+  simp only [sizeElse] at hn
+  rw [hdr_if cfg c m b x _ (by omega)]
+  simp only [toksElse, treeElse, List.cons_append, List.append_assoc]
+  exact tail_elseif cfg thn hl m none _ b _ rd _ _ (by omega) (hi m b kIf rest (by omega))
+
+theorem stmt_text (v : Bytes) : StmtOK cfg (.text v) := by
+  intro n s0 b rest hn hs
+  obtain ⟨m, rfl⟩ : ∃ m, n = m + 1 := ⟨n - 1, by simp [sizeS] at hn; omega⟩
+  exact toa_text cfg m s0 b v rest (by simpa [toksS] using hs)
+
+theorem stmt_print (e : E7) : StmtOK cfg (.print e) := by
+  intro n s0 b rest hn hs
+  simp only [sizeS] at hn
+  obtain ⟨m, rfl⟩ : ∃ m, n = m + 2 := ⟨n - 2, by omega⟩
+  simp only [toksS, List.cons_append, List.append_assoc, List.nil_append] at hs
+  rw [toa_action cfg (m + 1) s0 b _ hs]
+  exact action_print cfg e m b ld rest (by omega)
+
+theorem stmt_if (c : E7) (thn : L) (els : Else) (h : CtrlIf cfg c thn els) : StmtOK cfg (.ifS c thn els) := by
+  intro n s0 b rest hn hs
+  simp only [sizeS] at hn
+  obtain ⟨m, rfl⟩ : ∃ m, n = m + 2 := ⟨n - 2, by omega⟩
+  simp only [toksS, List.cons_append, List.append_assoc] at hs
+  rw [toa_action cfg (m + 1) s0 b _ hs, action_if]
+  exact h m b kIf rest (by omega)
+
+theorem stmt_range_none (v : RangeVars) (e : E7) (body : L) (hl : ListOK cfg body) :
+    StmtOK cfg (.rangeS v e body .none) := by
+  intro n s0 b rest hn hs
+  simp only [sizeS, sizeR] at hn
+  obtain ⟨m, rfl⟩ : ∃ m, n = m + 3 := ⟨n - 3, by omega⟩
+  simp only [toksS, toksR, endToks, List.cons_append, List.append_assoc, List.nil_append] at hs
+  rw [toa_action cfg (m + 2) s0 b _ hs, action_range, hdr_range cfg v e m b kRange _ (by omega)]
+  exact tail_none cfg body hl m false _ _ b rd rest (by omega)
+
+theorem stmt_range_els (v : RangeVars) (e : E7) (body l : L) (hl : ListOK cfg body) (hl2 : ListOK cfg l) :
+    StmtOK cfg (.rangeS v e body (.els l)) := by
+  intro n s0 b rest hn hs
+  simp only [sizeS, sizeR] at hn
+  obtain ⟨m, rfl⟩ : ∃ m, n = m + 3 := ⟨n - 3, by omega⟩
+  simp only [toksS, toksR, endToks, List.cons_append, List.append_assoc, List.nil_append] at hs
+  rw [toa_action cfg (m + 2) s0 b _ hs, action_range, hdr_range cfg v e m b kRange _ (by omega)]
+  exact tail_els cfg body l hl hl2 m false _ _ b rd rest (by omega) (by omega)
+
+/-! ### the ladder: mutual structural recursion over the grammar -/
+
+mutual
+theorem stmtS : (s : S) → StmtOK cfg s
+  | .text v => stmt_text cfg v
+  | .print e => stmt_print cfg e
+  | .ifS c thn els => stmt_if cfg c thn els (ctrlE els c thn (listL thn))
+  | .rangeS v e body .none => stmt_range_none cfg v e body (listL body)
+  | .rangeS v e body (.els l) => stmt_range_els cfg v e body l (listL body) (listL l)
+theorem listL : (l : L) → ListOK cfg l
+  | .nil => list_nil cfg
+  | .cons s l => list_cons cfg s l (stmtS s) (listL l)
+theorem ctrlE : (els : Else) → ∀ (c : E7) (thn : L), ListOK cfg thn → CtrlIf cfg c thn els
+  | .none, c, thn, h => ctrl_if_none cfg c thn h
+  | .els l, c, thn, h => ctrl_if_els cfg c thn l h (listL l)
+  | .elseIf c' thn' els', c, thn, h => ctrl_if_elseIf cfg c thn c' thn' els' h (ctrlE els' c' thn' (listL thn'))
+end
+
+/-! ### the top-level loop of `parseTemplate` -/
+
+/-- the item that ends the template -/
+def eofI : Item := it Tok.eof []
+
+theorem bodyLoop_reads (fuel : Nat) : (l : L) → ∀ (k : Nat) (acc : List PStmt) (b : PSt) (x : Item),
+    fuel ≥ 10 * sizeL l → k ≥ lenL l + 1 →
+    bodyLoop cfg fuel k acc (mkS b (toksL l ++ [eofI]) x 0) = .ok (acc ++ treeL l) (mkS b [] eofI 1)
+  | .nil => by
+    intro k acc b x _ hk
+    obtain ⟨m, rfl⟩ : ∃ m, k = m + 1 := ⟨k - 1, by omega⟩
+    have h0 : eofI.pos = 0 := rfl
+    have h1 : eofI.typ = Tok.eof := rfl
+    rw [bodyLoop]
+    simp [toksL, treeL, bind_apply, h0, h1]
+  | .cons s l => by
+    intro k acc b x hf hk
+    obtain ⟨m, rfl⟩ : ∃ m, k = m + 1 := ⟨k - 1, by omega⟩
+    obtain ⟨t, ts, hts, h0, hty⟩ := headS s
+    have hsp : t.typ ≠ Tok.space := by rcases hty with h | h <;> simp [h]
+    have heof : t.typ ≠ Tok.eof := by rcases hty with h | h <;> simp [h]
+    have hx := stmtS cfg s fuel (mkS b (ts ++ (toksL l ++ [eofI])) t 1) b (toksL l ++ [eofI])
+      (by simp [sizeL] at hf; omega) (by rw [hts]; exact starts_pushed b t _ hsp)
+    have ih := bodyLoop_reads fuel l m (acc ++ [treeS s]) b (lastS s) (by simp [sizeL] at hf; omega)
+      (by simp [lenL] at hk; omega)
+    rw [bodyLoop]
+    simp only [toksL, List.append_assoc, hts, List.cons_append]
+    simp [bind_apply, h0, heof, hx, marker_treeS, ih, treeL]
 
 end JetVerif.Parse
